@@ -42,7 +42,8 @@ def nodes(fmt, obj):
                         if id(img) in seen:
                             continue
                         seen.add(id(img))
-                        out.append((["img.image"] + ([] if img.unified else ["img.plainimage"]), "%s|%s|%s" % (v, a, img.path), img))
+                        out.append((["img.image"] + ([] if img.unified else ["img.plainimage"])
+                                    + (["img.twinimage"] if _near_twin(obj, a, img) else []), "%s|%s|%s" % (v, a, img.path), img))
     elif fmt == "treeinfo":
         out.append((["ti.release"], "release", obj.release))
         if obj.release.is_layered:
@@ -66,6 +67,23 @@ def nodes(fmt, obj):
     elif fmt == "discinfo":
         out.append((["di.discinfo"], "discinfo", obj))
     return out
+
+
+IDENT = ("subvariant", "type", "format", "arch", "disc_number", "unified", "additional_variants")     # doc/images-1.1.rst
+
+
+def _near_twin(man, arch_key, img):
+    """An image filed under ANOTHER arch key that differs from img in exactly one identifying attribute (and in checksums):
+    -> (attribute, the twin's value) or None."""
+    for v in sorted(man.images):
+        for a in sorted(man.images[v]):
+            if a == arch_key:
+                continue
+            for other in sorted(man.images[v][a], key=lambda i: i.path):
+                diff = [k for k in IDENT if getattr(other, k) != getattr(img, k)]
+                if len(diff) == 1 and other.checksums != img.checksums:
+                    return diff[0], getattr(other, diff[0])
+    return None
 
 
 def _top(v):
@@ -247,7 +265,7 @@ def corrupt_document(fmt, text, obj, case):
         node = pay["variants"][label]
     elif kind == "ci.vrelease":
         node = pay["variants"][label]["release"]
-    elif kind in ("img.image", "img.plainimage"):
+    elif kind in ("img.image", "img.plainimage", "img.twinimage"):
         v, a, path = label.split("|")
         hits = [d for d in pay["images"][v][a] if d["path"] == path]      # this record only, not its copies in other cells
         if not hits:
@@ -256,7 +274,7 @@ def corrupt_document(fmt, text, obj, case):
         nodes_ = hits
     else:
         raise core.MachineryError("no document location for kind %s" % kind)
-    targets = nodes_ if kind in ("img.image", "img.plainimage") else [node]
+    targets = nodes_ if kind in ("img.image", "img.plainimage", "img.twinimage") else [node]
     for n in targets:
         if cls == "upper":
             n[field] = n[field].upper()
@@ -274,6 +292,11 @@ def corrupt_document(fmt, text, obj, case):
             n["arches"] = sorted(set(n["arches"]) | (set(top["arches"]) - set(par["arches"])))
         elif cls == "nonempty":
             n["additional_variants"] = ["Client"]
+        elif cls == "doc:collide":
+            v, a, path = label.split("|")
+            img = [i for i in obj.images[v][a] if i.path == path][0]
+            attr, val = _near_twin(obj, a, img)
+            n[attr] = val
         elif cls == "int" and field == "date":
             n[field] = 20150522
         else:
